@@ -45,8 +45,9 @@ def at4_handshake(inst):
     for a in inst["acs"]:
         t = ((235 + 500) << 5) & 0xFFFF
         body += bytes([(a.get("power", 1) << 6) | a["id"], (a.get("mode", 4) << 4) | a.get("fan", 0), a.get("setpoint", 22) & 0x3F,
-                       0, t >> 8, t & 0xFF, 0, 0])
+                       0, t >> 8, t & 0xFF, a.get("err", 0) >> 8, a.get("err", 0) & 255])
     ops.append(msg(0x2D, body))
+    ops += start_errors(4, inst)
     ops.append(msg(0x37, b"".join(bytes([0x80, 0, 0x80, 0, 0, 0, 0, 0]) for _ in range(4))))
     body = b""
     for z in sorted(inst["zones"]):
@@ -80,7 +81,8 @@ def at5_handshake(inst):
                  + bytes([min(zs) if zs else 0, len(zs), a["modes"], a["fans"], a["lo"], a["hi"], a.get("lo_heat", a["lo"]), a.get("hi_heat", a["hi"])]))
     ops.append(msg(0x1F, bytes([0xFF, 0x11]) + body))
     ops.append(cs(0x23, 10, [[(a.get("power", 1) << 4) | a["id"], (a.get("mode", 4) << 4) | a.get("fan", 0),
-                              a.get("setpoint", 22) * 10 - 100, 0, (735 >> 8), 735 & 255, 0, 0, 0, 0] for a in inst["acs"]]))
+                              a.get("setpoint", 22) * 10 - 100, 0, (735 >> 8), 735 & 255, a.get("err", 0) >> 8, a.get("err", 0) & 255, 0, 0] for a in inst["acs"]]))
+    ops += start_errors(5, inst)
     ops.append(cs(0x33, 9, [[a["id"], 0x80, 0, 0x80, 0, 0, 0, 0, 0] for a in inst["acs"]]))
     recs = []
     for z in sorted(inst["zones"]):
@@ -89,6 +91,12 @@ def at5_handshake(inst):
                      0x80 if d.get("sensor") else 0, (725 >> 8) if d.get("sensor") else 0xFF, (725 & 255) if d.get("sensor") else 0xFF, 0, 0])
     ops.append(cs(0x21, 8, recs))
     return ops
+
+
+def start_errors(gen, inst):
+    """an AC that is ALREADY in error when the client connects: the client asks for the error text at once and the console answers at
+    once - in the middle of the handshake"""
+    return [msg(0x1F, bytes([0xFF, 0x10, a["id"], len(a.get("err_text", b""))]) + bytes(a.get("err_text", b""))) for a in inst["acs"] if a.get("err")]
 
 
 def handshake(gen, inst):
@@ -238,6 +246,7 @@ def random_install(rng, gen, n_acs=None, n_zones=None):
     for i, ac in enumerate(ids):
         lo, hi = rng.randint(10, 20), rng.randint(24, 35)
         a = dict(id=ac, name=rng.choice(AC_NAMES), modes=rng.choice([0x1F, 0x1F, rng.randint(1, 31)]),
+                 **(dict(err=rng.choice([5, 7, 0x0105]), err_text=rng.choice([b"ER05 compressor", b"E7", b""])) if rng.random() < 0.15 else {}),
                  fans=rng.choice([0x7F if gen == 4 else 0xFF] * 2 + [rng.randint(1, 0x7F if gen == 4 else 0xFF)]), lo=lo, hi=hi,
                  zones=owner[i], mode=rng.choice([0, 1, 2, 3, 4]), power=rng.choice(d["power"]), fan=rng.choice(d["fan"][:7]),
                  setpoint=rng.randint(16, 30))
@@ -254,6 +263,11 @@ def random_install(rng, gen, n_acs=None, n_zones=None):
     for z in numbers:
         zones[z] = dict(name=rng.choice(ZONE_NAMES), sensor=bool(rng.randint(0, 1)), turbo=bool(rng.randint(0, 1)), ctrl=rng.randint(0, 1),
                         power=rng.choice(d["zpower"]), damper=rng.choice([0, 5, 50, 100, rng.randint(0, 100)]), setpoint=rng.randint(16, 30))
+    if gen == 5 and zones and rng.random() < 0.15:
+        # AirTouch 5 names are length-prefixed: descriptive names make the zone-names answer longer than 256 bytes
+        stem = rng.choice(["Ground floor living room number ", "Küche und Esszimmer im Erdgeschoss ", "y" * 60 + " "])
+        for z in zones:
+            zones[z]["name"] = stem + str(z)
     return dict(acs=acs, zones=zones, version=rng.choice(["1.2.3", "1.0.5", "9.9"]), update=rng.choice([0, 0, 1]))
 
 
@@ -268,7 +282,7 @@ class Console:
         self.zone_ids = sorted(inst["zones"])
         self.ac = {}
         for a in inst["acs"]:
-            self.ac[a["id"]] = dict(id=a["id"], power=a.get("power", 1), mode=a.get("mode", 4), fan=a.get("fan", 0), temp=235, err=0,
+            self.ac[a["id"]] = dict(id=a["id"], power=a.get("power", 1), mode=a.get("mode", 4), fan=a.get("fan", 0), temp=235, err=a.get("err", 0),
                                     setpoint=a.get("setpoint", 22) if gen == 4 else a.get("setpoint", 22) * 10 - 100)
         self.zone = {}
         for z in self.zone_ids:
